@@ -133,5 +133,16 @@ SPEC = {
     "rule": "interleavings of inv announcements of overlapping txid sets from the trusted and 1-3 untrusted connections, tracker checks, body arrivals (trusted / untrusted), confirmations, clock advances around the 3 s window; distinct = distinct (cfg, ops)",
 }
 
+# The same on the real run loop (harness component "shutdown", scenarios and monitor of gen/c19.py / model/Shutdown.v):
+# the trusted peer announces a tx twice and does not deliver it; after the window its next activity must bring a second
+# request - on the first trusted connection and after the connection was lost and made again in the same process.
+import c19
+
+_tracker_keyfn = SPEC["keyfn"]
+SPEC["extra"] = lambda tier, rng, workdir: c19.tracker_reconnect_scenarios(tier, rng, workdir)
+SPEC["keyfn"] = lambda rc: c19.keyfn(rc) if rc.get("suite") == "shutdown_tracker" else _tracker_keyfn(rc)
+SPEC["assumptions"] = list(SPEC["assumptions"]) + [
+    "the tracker histories run on Node / UntrustedNode objects without a run loop; that the trusted connection's tracker still works after Node.Run has lost and re-made the trusted connection is checked separately on the real run loop (gen/c19.py tracker_reconnect_scenarios)"]
+
 if __name__ == "__main__":
     checklib.run_check(SPEC)
